@@ -5,7 +5,7 @@
     the machine theorems C03/C04 (Proofs/Top.v) at the regenerated trees. *)
 From PegV Require Import Base.Tac Base.ListX Spec.Syntax Spec.Peg Spec.Tokens Spec.WF Model.Machine Model.Runtime Model.SkipCheck Model.Optimize Model.Gen
   Proofs.PegFacts Proofs.PegRel Proofs.OptSound Proofs.Top Proofs.OptTop Model.Calls Generated.PegPeg
-  Reader.Base Reader.File Reader.FileBridge Reader.Top.
+  Reader.Base Reader.BridgeDefs Reader.File Reader.FileBridge Reader.Safe Reader.Top.
 Local Open Scope nat_scope.
 
 Lemma pegpeg_facts :
@@ -85,6 +85,42 @@ Proof.
   pose proof (c01_verdict_prefix pegpeg_is pegpeg_is_ptx buf penv (good_grammar_b_ok _ Hg2) Hgb (good_switches_b_ok _ Hs2)
                 memo inline m 0 st0 _ Hslot Hp') as Hm. cbn [fst] in Hm. destruct Hm as (st' & Hm).
   exists m, st'. exact Hm.
+Qed.
+
+(** Every text.  Whatever runes the shipped parser is given (code points, none of them the end symbol), it
+    terminates, and either Parse() reports an error or the calls Execute() makes over its tokens go through the
+    builder - no empty-stack pop, no misused node - and leave a package name, the parser type with its state, at
+    least one rule and nothing half-built: never a crash, never an empty parser.
+    (totality of the reference semantics on peg.peg's well-formed tree, then rejected_shipped or, for an accepted
+    text, optimize_sound + the machine theorems + Reader/Safe.v's accepted_text_builds.) *)
+Theorem every_text_shipped buf memo inline st0 :
+  good_buf buf -> valid_buf buf -> slot_ok pegpeg_is inline 0 ->
+  exists n b st', machine pegpeg_is pegpeg_is_ptx buf penv memo inline n 0 st0 = Some (Ret b st') /\
+    (b = true ->
+     exists s', frun nm ak (calls_of_tokens pegpeg_is pegpeg_is_ptx buf (live st')) finit = Some s' /\
+       stk s' = [] /\ pend s' = None /\ pegn s' = None /\
+       (exists pk, In (NPackage pk) (back s')) /\ (exists name st, In (NPeg name st) (back s')) /\
+       (exists name e, In (NRule name e) (back s'))).
+Proof.
+  intros Hgb Hvb Hslot.
+  destruct pegpeg_facts as (Hwf & Hg2 & Hs2 & Eopt & Hopt & Eptx & Er0).
+  assert (Hr : exists rb, nth_error pegpeg_d 0 = Some rb /\ rb <> RNil) by (vm_compute; eexists; split; [reflexivity|discriminate]).
+  destruct Hr as (rb & Hr & Hn).
+  destruct (c01_total pegpeg_d pegpeg_d_ptx buf penv _ _ 0 rb Hwf Hr Hn) as (n & [[|p f] evs] & Hp).
+  - (* the text is not a grammar *)
+    destruct (rejected_shipped buf memo inline st0) as (m & st' & Hm); try assumption.
+    { exists n, evs. rewrite Er0. exact Hp. }
+    exists m, false, st'. split; [exact Hm|discriminate].
+  - (* accepted *)
+    destruct (optimize_sound pegpeg_d (nul_table pegpeg_d) (rank_table pegpeg_d (nul_table pegpeg_d)) Hwf Hopt
+                pegpeg_d_ptx buf penv Hvb 0 n _ Hp) as (m & evs' & Hp'). cbn [fst] in Hp'. rewrite Eopt in Hp'.
+    rewrite <- Eptx in Hp'.
+    destruct (c04_execute pegpeg_is pegpeg_is_ptx buf penv (good_grammar_b_ok _ Hg2) Hgb (good_switches_b_ok _ Hs2)
+                memo inline m 0 st0 _ _ _ Hslot Hp') as (st' & Hm & Hex).
+    exists m, true, st'. split; [exact Hm|]. intros _.
+    unfold calls_of_tokens. rewrite Hex, trace_same, Eptx.
+    unfold peg_parse in Hp. rewrite <- Er0 in Hp.
+    exact (accepted_text_builds nm ak buf penv n p f evs Hp).
 Qed.
 
 End Shipped.
